@@ -144,13 +144,19 @@ def check_not_found_helper(prog, rep, slicer):
     # the helper's result decomposed into cases (through local copies and `result.or_else(|e| ..)`): the input
     # returned unchanged / an error returned / a fresh Ok(..) produced — the latter only under Err(e) && not-found(e)
     cases = H.helper_cases(prog, slicer, f)
+    pred_name = ROLES['NOT_FOUND_PRED']
+    if pred_name and pred_name in prog.fns and H.inverse_predicate(slicer, prog.fns[pred_name]):
+        # the helper's predicate is the *negation* (`fn is_other_error(e) = !matches!(e.kind(), NotFound)`): it is never
+        # accepted by name; every guard using it is judged on its inlined view (Cond.views), polarity included
+        pred_name = None
+        rep.extra['not_found_predicate_inverse'] = True
     for g_ in {c.fn.path: c.fn for c in cases}.values():
         rep.analysed(g_)
     if not any(c.kind == 'fresh_ok' for c in cases):
         rep.unproven('R2', 'default_on_not_found/ok-site', f.file, 'no Ok(..) construction found')
     for c in cases:
         if c.kind == 'fresh_ok':
-            is_err, nf, conds = H.fresh_ok_guard(prog, slicer, c, ROLES['NOT_FOUND_PRED'])
+            is_err, nf, conds = H.fresh_ok_guard(prog, slicer, c, pred_name)
             rep.check(is_err and nf, 'R2', 'default_on_not_found/guard', '%s:%d' % (f.file, f.line),
                       'Ok(default) is produced only under Err(e) && is_not_found_error_kind(e)',
                       'Ok(default) is produced without the NotFound guard: other I/O errors would be swallowed',
@@ -162,7 +168,25 @@ def check_not_found_helper(prog, rep, slicer):
         else:
             rep.check(False, 'R2', 'default_on_not_found/passthrough', '%s:%d' % (f.file, f.line),
                       'all other results are returned unchanged', 'a non-NotFound result is altered: ' + vstr(c.value)[:160])
-    g = prog.fn(ROLES['NOT_FOUND_PRED'] or 'libcnb::util::is_not_found_error_kind')
+    try:
+        g = prog.fn(ROLES['NOT_FOUND_PRED'] or 'libcnb::util::is_not_found_error_kind')
+    except Exception:
+        g = None
+    if g is None:
+        # no separate not-found predicate exists (its body is written out in the guards that used it): the obligation
+        # "true exactly for ErrorKind::NotFound" is then carried by each guard itself — by `fresh_ok_guard` above for
+        # the helper (which accepts only the predicate *or* an inline `kind() == / matches NotFound` test) and by
+        # `ErrFlow._classify_edge` for every other tolerating site (R4).  A helper whose fresh Ok is not under such an
+        # inline test has been reported by R2/default_on_not_found/guard.
+        inline_ok = any(c.kind == 'fresh_ok' for c in cases) and \
+            all(H.fresh_ok_guard(prog, slicer, c, None)[1] for c in cases if c.kind == 'fresh_ok')
+        if inline_ok:
+            rep.holds('R2', 'is_not_found_error_kind/kind', '%s:%d' % (f.file, f.line),
+                      'no separate predicate: the helper tests kind() against ErrorKind::NotFound inline')
+        else:
+            rep.unproven('R2', 'is_not_found_error_kind/kind', f.file,
+                         'no not-found predicate function and the helper\'s guard is not an inline NotFound test')
+        return
     rep.analysed(g)
     true_sites = []
     for bi, b in enumerate(g.blocks):
@@ -177,7 +201,11 @@ def check_not_found_helper(prog, rep, slicer):
         rv = _strip(slicer.local(g, 0))
         is_kind = lambda x: _strip(x)[0] == 'call' and _strip(x)[1] == 'std::io::Error::kind' and _strip(_strip(x)[2][0])[0] == 'param'
         is_nf = lambda x: _strip(x)[0] == 'agg' and _strip(x)[2] == 'NotFound' and (_strip(x)[1] or '').endswith('io::ErrorKind')
-        if rv[0] == 'select' and is_kind(rv[1]):
+        if H.inverse_predicate(slicer, g):
+            rep.holds('R2', 'is_not_found_error_kind/kind', '%s:%d' % (g.file, g.line),
+                      'the predicate is false exactly for ErrorKind::NotFound of the parameter (a negated predicate: '
+                      'never accepted by name, its uses are judged on the inlined test)')
+        elif rv[0] == 'select' and is_kind(rv[1]):
             trues = sorted(n for names, val in rv[3] if val == ('const', True) for n in names)
             others = all(val in (('const', True), ('const', False)) for _, val in rv[3])
             rep.check(trues == ['NotFound'] and others, 'R2', 'is_not_found_error_kind/kind', '%s:%d' % (g.file, g.line),
@@ -260,6 +288,8 @@ def check_err_flow(prog, rep, slicer, fns, tag=''):
     confined to NotFound / non-I/O variants.  (Sites R1 already reports as discarded are not repeated.)"""
     from . import layer_roles
     EF = H.ErrFlow(prog, slicer, layer_roles.roles(prog, slicer))
+    if EF.pred in prog.fns and H.inverse_predicate(slicer, prog.fns[EF.pred]):
+        EF.pred = None      # a negated predicate is never accepted by name (see R2)
     n = tol = 0
     for f, c, subject in _sites(fns):
         fates = result_fates(prog, f, c)
@@ -320,8 +350,8 @@ def check_carriers(prog, rep, slicer, fns, EF, tag=''):
                 _report(rep, 'R5', subj, c.where(), H.stream_consumer(car, prog, slicer, f, c, fns, EF.helper),
                         'the stream of Results reaches a consumer that keeps the element errors')
         # (c) Result-typed parameters (elements handed to closures of adapters, helpers taking a Result by value)
-        if f.path == EF.helper:
-            continue
+        if f.path in EF.helpers:
+            continue        # the helper (and the functions it merely forwards to): judged by R2 on its cases
         for i in range(1, f.argc + 1):
             ty = f.locals[i]['ty'] if i < len(f.locals) else ''
             if car.is_result(ty):
